@@ -305,10 +305,13 @@ def merge_evaluated(db, rule):
         return
     FIELDS = ('definition', 'convention', 'term', 'text')
 
-    def scenario(dest, src):
+    rec_overload = [g for g in db.by_name.get(S + 'RSCore::InsertCopy', []) if g.body >= 0 and g.rec.get('params') and 'ConceptRecord' in g.rec['params'][0]['type'] and 'vector' in g.rec['params'][0]['type']]
+
+    def scenario(dest, src, entry='merge'):
         """dest: aliases of the receiving schema, or (alias, [mentions of its definition]) pairs; src: list of (alias, [mentions]); returns (bad message or None)"""
+        dmap = lambda d: {} if isinstance(d, str) else (d[1] if isinstance(d[1], dict) else {'definition': d[1]})
         dest_recs = [Obj(__cls__='cst', uid=1000 + i, alias=(d if isinstance(d, str) else d[0]).encode(), type=ord((d if isinstance(d, str) else d[0])[0]),
-                         definition=[m.encode() for m in ([] if isinstance(d, str) else d[1])], convention=[], term=[], text=[]) for i, d in enumerate(dest)]
+                         **{f_: [m.encode() for m in dmap(d).get(f_, [])] for f_ in FIELDS}) for i, d in enumerate(dest)]
         dest_aliases = [bytes(r['alias']).decode() for r in dest_recs]
         used = set(dest_aliases)
         reserved = set()
@@ -374,6 +377,20 @@ def merge_evaluated(db, rule):
             if last == 'ExtractUGlobals' and n.get('args'):
                 v = ev(n['args'][0])
                 return set(bytes(x) for x in v) if isinstance(v, list) else set()
+            if last in ('At',) and cs.startswith(S + 'Thesaurus') and n.get('args'):
+                u_ = ev(n['args'][0])
+                hit_ = [r for r in dest_recs if r['uid'] == u_] + ([store[u_]] if u_ in store else [])
+                if not hit_:
+                    raise OutOfFragment('Thesaurus::At of an unknown constituent %s' % u_)
+                return hit_[0]
+            if last == 'Text' and 'LexicalTerm' in cs and 'obj' in n:
+                return ev(n['obj'])
+            if last == 'Referals' and 'obj' in n:
+                m_ = fn.strip(Sx[n['obj']])
+                if m_ is not None and m_['k'] == 'MemberExpr' and (m_.get('qn') or '').endswith('TextConcept::definition'):
+                    return set(bytes(x) for x in ev(m_['c'][0])['text'])
+                v_ = ev(n['obj'])
+                return set(bytes(x) for x in v_) if isinstance(v_, list) else set()
             if last == 'FindAlias' and cs.startswith(S) and n.get('args'):
                 o = ev(n['obj']) if 'obj' in n else None
                 nm = bytes(ev(n['args'][-1]))
@@ -382,6 +399,9 @@ def merge_evaluated(db, rule):
                 else:
                     hit = [r['uid'] for r in dest_recs if bytes(r['alias']) == nm] + [u for u, r in store.items() if bytes(r['alias']) == nm]
                 return hit[0] if hit else None
+            if last in ('SpawnRS', 'SpawnText') and 'obj' in n:
+                r0 = ev(n['obj'])
+                return Obj(__cls__='cst', uid=r0['uid'], alias=r0['alias'], type=r0.get('type'), **{f: list(r0[f]) for f in FIELDS})
             if last in ('Load', 'Insert') and cs.startswith((S + 'Schema::', S + 'Thesaurus::')):
                 rec = a()[0]
                 cur = store.setdefault(rec['uid'], Obj(__cls__='cst', uid=rec['uid'], alias=rec['alias'], type=rec.get('type'), **{f: list(rec[f]) for f in FIELDS}))
@@ -434,7 +454,13 @@ def merge_evaluated(db, rule):
                 return list(dest_recs) + list(store.values())
             return v
         it_.on_range = on_range
-        it_.call(mw, [Obj(__cls__=S + 'RSForm', which='src')], this)
+        if entry == 'merge':
+            it_.call(mw, [Obj(__cls__=S + 'RSForm', which='src')], this)
+        else:
+            # the sibling that inserts a group of records (the same register / load / collect / translate protocol, no source schema)
+            got_ = it_.call(rec_overload[0], [[src_recs[u_] for u_ in sorted(src_recs)]], this['core']['core'])
+            for u_, new_ in zip(sorted(src_recs), got_ or []):
+                result_tr[u_] = new_
         # expectations
         if sorted(result_tr) != sorted(src_recs):
             return 'the returned translation covers %s of the constituents %s of the merged schema' % (sorted(result_tr), sorted(src_recs))
@@ -457,11 +483,12 @@ def merge_evaluated(db, rule):
         fresh = {bytes(r['alias']) for r in store.values()} - {a_.encode() for a_ in dest_aliases}
         for who, recs_, own in (('merged', list(src_recs.values()), src_aliases), ('receiving', dest_recs, {a_.encode() for a_ in dest_aliases})):
             for rec in recs_:
-                for m in rec['definition']:
+              for f_ in FIELDS:
+                for m in rec[f_]:
                     if bytes(m) not in own and bytes(m) in fresh and not (who == 'merged' and bytes(m).decode() in dest_aliases):
-                        return ('merging %s into a schema holding %s: the definition of %s in the %s schema mentions %s, which denotes no constituent there; a copied constituent is given exactly this name, '
-                                'so the dangling mention silently gets a meaning (an INCORRECT definition becomes VERIFIED, X1\\X2 becomes X2\\X2)' % (
-                                    [(a_, m_) for a_, m_ in src], dest, bytes(rec['alias']).decode(), who, bytes(m).decode()))
+                        return ('merging %s into a schema holding %s: the %s of %s in the %s schema mentions %s, which denotes no constituent there; a copied constituent is given exactly this name, '
+                                'so the dangling mention silently gets a meaning (an INCORRECT definition becomes VERIFIED, X1\\X2 becomes X2\\X2; a text reference to an erased constituent names another one)' % (
+                                    [(a_, m_) for a_, m_ in src], dest, f_, bytes(rec['alias']).decode(), who, bytes(m).decode()))
         return None
     cases = [
         (['X1'], [('X1', ['X1', 'X2']), ('X2', ['X2'])]),                     # chain X1->X2, X2->X3 and self mentions
@@ -473,6 +500,8 @@ def merge_evaluated(db, rule):
         (['X1'], [('X1', {'definition': ['X1', 'X2']})]),                      # X2 is defined nowhere: the copy of X1 must not be called X2
         ([('X1', []), ('D1', ['X2', 'X2'])], [('X1', ['X1'])]),                # the receiving schema mentions the erased X2
         ([('X1', []), ('D1', ['X2'])], [('X2', ['X2']), ('X1', ['X2'])]),      # ... and the merged schema has an X2 of its own
+        ([('X1', []), ('D1', {'definition': ['X1'], 'term': ['X2'], 'convention': ['X2']})], [('X1', ['X1'])]),      # only the texts of the receiving schema mention the erased X2
+        (['X1'], [('X1', {'definition': ['X1'], 'text': ['X2']})]),            # a text reference of the merged schema dangles
     ]
     bad = None
     try:
@@ -485,6 +514,20 @@ def merge_evaluated(db, rule):
         rule.violation('MergeWith:evaluated', '%s:%d' % (mw.file, mw.line), bad)
     else:
         rule.ok('MergeWith:evaluated', '%d merge scenarios: every constituent copied, recorded, and every mention in its texts renamed exactly once' % len(cases), '%s:%d' % (mw.file, mw.line))
+    # the sibling group insertion of records (synthesis helpers, loading a group): same obligation on the renaming
+    if len(rec_overload) == 1:
+        g = rec_overload[0]
+        bad2 = None
+        try:
+            for dest, src in cases[:6]:
+                bad2 = bad2 or scenario(dest, src, entry='records')
+        except OutOfFragment as e:
+            rule.broken('RSCore::InsertCopy(records) outside the evaluable fragment: %s' % e)
+            return
+        if bad2:
+            rule.violation('InsertCopy(records):evaluated', '%s:%d' % (g.file, g.line), bad2.replace('merging', 'inserting the records'))
+        else:
+            rule.ok('InsertCopy(records):evaluated', '6 scenarios: every record inserted and every mention renamed exactly once by the complete map', '%s:%d' % (g.file, g.line))
 
 
 # ---------------------------------------------------------------------------------------------- r8: duplicate elimination, evaluated
